@@ -1,7 +1,7 @@
 /-
 C17 — Mappings and sets are finite maps under any consistent hash.
 Property theorems only; definitions (`Consistent`, `Inv`, `look`, `has`, `writeAll`, `foldF`, `Sub`) and helper
-lemmas live in XrayProofs/HashMap.lean, the model in XrayModel/HashMap.lean.
+lemmas live in XrayProofs/HashMap.lean and XrayProofs/HashMapMore.lean, the model in XrayModel/HashMap.lean.
 
 * `Consistent hash eq` is the premise of the property: `eq` is a total equivalence relation (`C.e`), `hash` is
   total (`C.h`), equal keys hash equally and hashes lie in `[0, 2^64)`.  Nothing else is assumed about the
@@ -14,7 +14,7 @@ Every operation theorem has the shape: on a well-formed table the operation succ
 error value — never a panic), the result is well-formed, and `look` of the result is the association-list
 specification applied to `look` of the argument.
 -/
-import XrayProofs.HashMap
+import XrayProofs.HashMapMore
 namespace XrayModel.C17
 open XrayModel.HM
 
@@ -271,5 +271,37 @@ theorem set_relations (C : Consistent hash eq) {a b : Table K Unit} (ha : Inv C 
   have e2 : ∀ k, has C b k = mem C b k := has_eq_mem C hb
   simp only [e1, e2]
   exact ⟨sGe_spec C ha hb, sGt_spec C ha hb, sEq_spec C ha hb, isDisjoint_spec C ha hb⟩
+
+/-! ### `==`, `hash`, `map_values` -/
+
+/-- mapping `==` (with both mappings built on the same consistent `hash` / `eq`, and a total value equality
+`ve`): true exactly when every key class is absent from both or present in both with `ve`-equal values — equality
+of the two association lists over the classes.  (Set `==` is the third clause of `set_relations`.) -/
+theorem mapping_eq_spec (C : Consistent hash eq) (veq : V → V → Res Bool) (ve : V → V → Bool)
+    (hve : ∀ a b, veq a b = .ok (ve a b)) {m0 m1 : Table K V} (h0 : Inv C m0) (h1 : Inv C m1) :
+    ∃ r, dynEq hash eq veq m0 m1 = .ok r ∧ (r = true ↔ ∀ k, optRel ve (look C m0 k) (look C m1 k) = true) := by
+  rw [look_fun C h0, look_fun C h1]
+  exact dynEq_spec C veq ve hve h0 h1
+
+/-- set `hash` on the repaired code: sets with the same members hash equally — whatever the insertion and
+removal history, the stored representatives, or the (consistent) key hash — and the hash lies in `[0, 2^64)` -/
+theorem set_hash_congr (C : Consistent hash eq) {a b : Table K Unit} (ha : Inv C a) (hb : Inv C b)
+    (h : ∀ k, has C a k = has C b k) : sHash a = sHash b ∧ sHash a < 2 ^ 64 :=
+  ⟨sHash_congr C ha hb (fun k => by rw [← has_eq_mem C ha, ← has_eq_mem C hb]; exact h k), sHash_lt a⟩
+
+/-- mapping `hash` on the repaired code, for a total value hash with values in range (`VHashOK vhash vh`):
+the hash succeeds, lies in `[0, 2^64)`, and mappings with the same association list over the classes hash equally -/
+theorem mapping_hash_congr (C : Consistent hash eq) {vhash : V → Res Int} {vh : V → Nat} (hv : VHashOK vhash vh)
+    {a b : Table K V} (ha : Inv C a) (hb : Inv C b) (h : ∀ k, look C a k = look C b k) :
+    dynHash vhash a = dynHash vhash b ∧ ∃ n, dynHash vhash a = .ok n ∧ n < 2 ^ 64 :=
+  ⟨dynHash_congr C hv ha hb (fun k => by rw [← look_eq_lookB C ha, ← look_eq_lookB C hb]; exact h k),
+   dynHash_lt hv a⟩
+
+/-- `map_values(m, f)` for a total `f`: same key classes, every value mapped, `len` unchanged, invariant kept -/
+theorem map_values_spec {W : Type} (C : Consistent hash eq) (f : V → Res W) (g : V → W) (hf : ∀ v, f v = .ok (g v))
+    {t : Table K V} (hI : Inv C t) :
+    ∃ t', mapValues hash eq f t = .ok t' ∧ Inv C t' ∧ t'.len = t.len ∧ ∀ k, look C t' k = (look C t k).map g := by
+  obtain ⟨t', h1, h2, h3, h4⟩ := mapValues_spec C f g hf hI
+  exact ⟨t', h1, h2, h3, fun k => by rw [look_eq_lookB C h2, look_eq_lookB C hI]; exact h4 k⟩
 
 end XrayModel.C17
